@@ -92,6 +92,7 @@ class World:
         self.garbage, self.garbage_p = garbage, garbage_p  # hostile value at any position
         self.returns = []              # (response path, value returned by an explicit resolver)
         self.dir_calls = []            # (directive, path, canon(directive_args), args) recorded by @vtrec
+        self.mutate_args = False       # resolvers scribble over the argument containers they were given (C15)
         self.arg_faults = set()        # (field name, argument name): the @vtgate argument hook raises (C08)
         self.shared_exc = None         # ONE exception instance raised by every "raise_shared" fault (known finding F11)
         self.label = None              # bundle label (C17): closures registered for another schema name must not run
@@ -335,6 +336,8 @@ class World:
             await self.sched.gate("r:" + "/".join(map(str, info.path.as_list())))
         if out[2] in self.faults:
             self.fired.append(out[2])
+        if self.mutate_args:
+            _scribble(args)
         if out[0] == "raise_shared":
             raise self.shared_exc
         if out[0] in ("raise", "raise_tf"):
@@ -375,6 +378,18 @@ class World:
         except (KeyError, TypeError):
             pass
         return None
+
+
+def _scribble(v):
+    """Modify every mutable container of an argument value in place."""
+    if isinstance(v, dict):
+        for x in list(v.values()):
+            _scribble(x)
+        v["scribbled_"] = True
+    elif isinstance(v, list):
+        for x in v:
+            _scribble(x)
+        v.append("scribbled_")
 
 
 NO_BAD = object()
